@@ -22,6 +22,13 @@ from . import session
 from . import C14 as base
 
 LEVEL = "other"
+IMPORTS = [
+    ("C04", None, "the keys that assemble the line, and the Enter that submits it, are decoded from the byte stream"),
+    ("C05", None, "`the line as it stood after every insertion, deletion and cursor move` is the editor's content"),
+    ("C06", ("C06.sync",), "the line the user sees is the editor's line (title: the *visible* line)"),
+    ("C07", None, "the handler receives the tokens of that line"),
+    ("C08", ("C08.classify",), "the arguments the handler reads are the classified tokens"),
+]
 
 
 def count(word, pred):
